@@ -147,7 +147,15 @@ func (l *Lock) Unlock(ctx context.Context, key string) error {
 func Middleware(ab *authboss.Authboss) func(http.Handler) http.Handler {
 	return func(next http.Handler) http.Handler {
 		return http.HandlerFunc(func(w http.ResponseWriter, r *http.Request) {
-			user := ab.LoadCurrentUserP(&r)
+			user, err := ab.LoadCurrentUser(&r)
+			if err != nil {
+				// a storage failure (or a request without a current user) is an
+				// error outcome, not a panic
+				logger := ab.RequestLogger(r)
+				logger.Errorf("error fetching current user in lock.Middleware: %+v", err)
+				w.WriteHeader(http.StatusInternalServerError)
+				return
+			}
 
 			lu := authboss.MustBeLockable(user)
 			if !IsLocked(lu) {
